@@ -690,7 +690,8 @@ static void run_cmd(int ntok, char **tok) {
          * (position,value) pairs only.  With "pin" the open goes through zck_init_adv_read with the header
          * checksum type and the (mutated file's own) stored header checksum pinned, then read_lead+read_header. */
         size_t n; char *d = get_data(A(1), &n); long from = (long)AI(2), to = (long)AI(3);
-        int pin = !strcmp(A(4), "pin"); int pht = (int)AI(5); long dloc = (long)AI(6), dsz = (long)AI(7);
+        int pinorig = !strcmp(A(4), "pinorig");   /* the pinned digest is the ORIGINAL file's (what the caller authenticated), not the candidate's own */
+        int pin = !strcmp(A(4), "pin") || pinorig; int pht = (int)AI(5); long dloc = (long)AI(6), dsz = (long)AI(7);
         int preopt = !strcmp(A(4), "preopt"); int po_opt = (int)AI(5); long po_val = (long)AI(6);   /* an integer option set on the fresh context first (its result ignored, the error cleared) */
         int relead = !strcmp(A(4), "relead");   /* the context has read the lead of the ORIGINAL bytes before they change (state carried between calls) */
         int retry = !strcmp(A(4), "retry");     /* advanced open; a refused zck_read_header is followed by zck_clear_error and a second zck_read_header on the same context */
@@ -724,7 +725,8 @@ static void run_cmd(int ntok, char **tok) {
                 else {
                     char hex[200]; unsigned char cur[64];
                     if(dsz > 64) dsz = 64;
-                    if(pread(mfd, cur, dsz, dloc) != dsz) memset(cur, 0, sizeof cur);
+                    if(pinorig && (size_t)(dloc + dsz) <= n) memcpy(cur, d + dloc, dsz);
+                    else if(pread(mfd, cur, dsz, dloc) != dsz) memset(cur, 0, sizeof cur);
                     for(long k = 0; k < dsz; k++) snprintf(hex + 2 * k, 3, "%02x", cur[k]);
                     ok = zck_init_adv_read(z, mfd) && zck_set_ioption(z, ZCK_VAL_HEADER_HASH_TYPE, pht)
                          && zck_set_soption(z, ZCK_VAL_HEADER_DIGEST, hex, 2 * dsz)
